@@ -463,6 +463,10 @@ func c18(ctx *Ctx) {
 	addC("mapping-without-equals/package", []string{"-p", "s", "--schema-package", "v"}, []string{"s.json"}, 1)
 	addC("mapping-without-equals/output", []string{"-p", "s", "--schema-output", "v"}, []string{"s.json"}, 1)
 	addC("mapping-without-equals/root-type", []string{"-p", "s", "--schema-root-type", "v"}, []string{"s.json"}, 1)
+	// a root type name that is not a Go identifier
+	for _, bad := range []string{"my-type", "9x", "func", "a b"} {
+		addC(fmt.Sprintf("root-type-not-an-identifier/%q", bad), []string{"--schema-package", "v=example.com/p1", "--schema-root-type", "v=" + bad, "--schema-output", "v=mapped/named.go"}, []string{"s.json"}, 1)
+	}
 	addC("unknown-flag", []string{"-p", "s", "--no-such-flag"}, []string{"s.json"}, 1)
 	addC("no-package", nil, []string{"s.json"}, 1)
 	addC("no-arguments", []string{"-p", "s"}, nil, 1)
